@@ -25,6 +25,7 @@ def prove_lemmas(names, prop, tier):
         res = {}
         for finite in (True, False):
             ctx = Ctx(finite, scope=dict(R.scope), enums=dict(R.enums))
+            ctx.infinite_sorts = set(getattr(R, 'infinite_sorts', ()))
             e = Exec(R, ctx, None, prop=None, timeout_ms=30000 if tier == 'quick' else 300000)
             install_axioms(e)
             st = State()
